@@ -278,6 +278,12 @@ def gen_cases(rng, tier):
             if ch[0] == "ok" and ch[1][2] <= 2000:
                 cases.append(("allvariants", d, t))
             cases.append(("apply", d, rng.choice([0, 1, 2, 2, 3, 7]), t))
+            # the same space used on ANOTHER of its members (reached by earlier mutations)
+            walk = run_impl(("apply", d, 7, t))
+            if walk[0] == "ok" and walk[1][0] is not None and walk[1][0] != t:
+                cases.append(("apply", d, rng.choice([1, 2, 3, 7]), walk[1][0]))
+                if ch[0] == "ok" and ch[1][2] <= 2000:
+                    cases.append(("allvariants", d, walk[1][0]))
     for _ in range(40 * N):
         # many multi-variant choices: the size is a product far beyond 2**63 (no overflow, no wrap)
         m = rng.choice([20, 25, 26, 28, 30, 31, 32, 33, 40, 60])
